@@ -5,6 +5,7 @@
 //   - regexp / format string literals bound to anchored package variables
 //   - the inventory of `range` loops over map-typed operands inside anchored functions
 //   - the lock/unlock and field-access sequence of the mtls.PublicKeys methods
+//
 // Standard library only.
 package main
 
@@ -339,98 +340,19 @@ func leanStr(s string) string {
 	return b.String()
 }
 
+// extractors are registered by the facts_*.go files; each adds facts for one area of the repository
+var extractors []func()
+
+func register(f func()) { extractors = append(extractors, f) }
+
 func main() {
 	leanOut := flag.String("lean", "Facts.lean", "")
 	jsonOut := flag.String("json", "facts.json", "")
 	flag.Parse()
-
-	llo := load("llo", true)
-	wl := func(f string) string { return "llo/" + f }
-
-	// ---- constants
-	for _, c := range []struct {
-		n     string
-		props []string
-	}{
-		{"MaxObservationRemoveChannelIDsLength", []string{"C14", "C06"}},
-		{"MaxObservationUpdateChannelDefinitionsLength", []string{"C14", "C06"}},
-		{"MaxObservationStreamValuesLength", []string{"C14", "C19"}},
-		{"MaxStreamsPerChannel", []string{"C14"}},
-		{"MaxOutcomeChannelDefinitionsLength", []string{"C14", "C01"}},
-		{"MaxObservationLength", []string{"C19"}},
-	} {
-		addNat("llo_"+c.n, llo.constNat(c.n), wl("plugin.go"), c.props...)
+	for _, f := range extractors {
+		f()
 	}
-	addStr("llo_LifeCycleStageStaging", llo.constNat("LifeCycleStageStaging"), wl("plugin.go"), "C05")
-	addStr("llo_LifeCycleStageProduction", llo.constNat("LifeCycleStageProduction"), wl("plugin.go"), "C05")
-	addStr("llo_LifeCycleStageRetired", llo.constNat("LifeCycleStageRetired"), wl("plugin.go"), "C05")
-
-	// ---- comparisons in anchored functions
-	addStrs("llo_outcome_cmps", llo.comparisons(llo.funcDecl("Plugin", "outcome"), "LifeCycleStage"), wl("plugin_outcome.go outcome"), "C06", "C05", "C03", "C18", "C14")
-	addStrs("llo_IsReportable_cmps", llo.comparisons(llo.funcDecl("Outcome", "IsReportable"), "LifeCycleStage", "protocolVersion"), wl("plugin_outcome.go IsReportable"), "C03", "C05")
-	addStrs("llo_reports_cmps", llo.comparisons(llo.funcDecl("Plugin", "reports"), "LifeCycleStage"), wl("plugin_reports.go reports"), "C05", "C04")
-	addStrs("llo_MedianAggregator_cmps", llo.comparisons(llo.funcDecl("", "MedianAggregator")), wl("aggregators.go MedianAggregator"), "C02")
-	addStrs("llo_MedianAggregator_idx", llo.medianIndexes(llo.funcDecl("", "MedianAggregator")), wl("aggregators.go MedianAggregator"), "C02")
-	addStrs("llo_QuoteAggregator_cmps", llo.comparisons(llo.funcDecl("", "QuoteAggregator")), wl("aggregators.go QuoteAggregator"), "C02")
-	addStrs("llo_QuoteAggregator_idx", llo.medianIndexes(llo.funcDecl("", "QuoteAggregator")), wl("aggregators.go QuoteAggregator"), "C02")
-	addStrs("llo_Quote_IsValid_cmps", llo.comparisons(llo.funcDecl("Quote", "IsValid")), wl("stream_value.go Quote.IsValid"), "C02")
-	addStrs("llo_medianTimestamp_idx", llo.medianIndexes(llo.funcDecl("", "medianTimestamp")), wl("plugin_outcome.go medianTimestamp"), "C02")
-	addStrs("llo_ModeAggregator_cmps", llo.comparisons(llo.funcDecl("", "ModeAggregator")), wl("aggregators.go ModeAggregator"), "C15")
-	addStrs("llo_mostCommonType_cmps", llo.comparisons(llo.funcDecl("", "mostCommonType"), "len("), wl("aggregators.go mostCommonType"), "C15", "C02")
-	addStrs("llo_ValidateObservation_cmps", llo.comparisons(llo.funcDecl("Plugin", "ValidateObservation")), wl("plugin.go ValidateObservation"), "C14", "C06")
-	addStrs("llo_VerifyChannelDefinitions_cmps", llo.comparisons(llo.funcDecl("", "VerifyChannelDefinitions"), "Aggregator"), wl("channel_definitions.go"), "C14")
-	addStrs("llo_OffchainConfig_Validate_cmps", llo.comparisons(llo.funcDecl("OffchainConfig", "Validate"), "DefaultMinReportIntervalNanoseconds"), wl("offchain_config.go Validate"), "C03", "C16")
-
-	// ---- map range inventory (typed)
-	for _, fn := range [][2]string{{"Plugin", "outcome"}, {"Plugin", "decodeObservations"}, {"Outcome", "ReportableChannels"},
-		{"", "StreamAggregatesToProtoOutcome"}, {"", "channelDefinitionsToProtoOutcome"},
-		{"", "validAfterNanosecondsToProtoOutcomeSeconds"}, {"", "validAfterNanosecondsToProtoOutcomeNanoseconds"},
-		{"Plugin", "reports"}, {"", "ModeAggregator"}, {"", "mostCommonType"}, {"", "MedianAggregator"}, {"", "QuoteAggregator"}} {
-		addStrs("llo_"+fn[1]+"_mapranges", llo.mapRanges(llo.funcDecl(fn[0], fn[1])), wl(fn[1]), "C01", "C10")
-	}
-
-	// ---- regex / format literals
-	addStr("llo_quoteRegex", llo.varStringArg("quoteRegex"), wl("stream_value.go"), "C17")
-	addStr("llo_timestampedStreamValueRegex", llo.varStringArg("timestampedStreamValueRegex"), wl("stream_value.go"), "C17")
-	addStrs("llo_Quote_MarshalText_fmt", llo.sprintfFormats(llo.funcDecl("Quote", "MarshalText")), wl("stream_value.go"), "C17")
-	addStrs("llo_TSV_MarshalText_fmt", llo.sprintfFormats(llo.funcDecl("TimestampedStreamValue", "MarshalText")), wl("stream_value.go"), "C17")
-
-	evm := load("llo/reportcodecs/evm", false)
-	addStr("evm_typeRegex", evm.varStringArg("typeRegex"), "llo/reportcodecs/evm/report_codec_common.go", "C13")
-	addStrs("evm_EncodePackedBigInt_cmps", evm.comparisons(evm.funcDecl("", "EncodePackedBigInt"), "typePrefix"), "llo/reportcodecs/evm/report_codec_common.go EncodePackedBigInt", "C13")
-	addStrs("evm_EncodePaddedBigInt_cmps", evm.comparisons(evm.funcDecl("", "EncodePaddedBigInt")), "llo/reportcodecs/evm/report_codec_common.go EncodePaddedBigInt", "C13")
-	addStrs("evm_ExtractTimestamps_cmps", evm.comparisons(evm.funcDecl("", "ExtractTimestamps")), "llo/reportcodecs/evm/report_codec_common.go ExtractTimestamps", "C12")
-
-	// ---- mercury
-	merc := load("mercury", false)
-	for _, fn := range []string{"GetConsensusTimestamp", "GetConsensusBenchmarkPrice", "GetConsensusBid", "GetConsensusAsk", "GetConsensusMaxFinalizedTimestamp", "GetConsensusLinkFee", "GetConsensusNativeFee"} {
-		fd := merc.funcDecl("", fn)
-		addStrs("mercury_"+fn+"_cmps", merc.comparisons(fd), "mercury/aggregate_functions.go "+fn, "C08")
-		addStrs("mercury_"+fn+"_idx", merc.medianIndexes(fd), "mercury/aggregate_functions.go "+fn, "C08")
-	}
-	for _, fn := range []string{"ValidateValidFromTimestamp", "ValidateExpiresAt", "ValidateBetween", "ValidateFee"} {
-		addStrs("mercury_"+fn+"_cmps", merc.comparisons(merc.funcDecl("", fn)), "mercury/validation.go "+fn, "C07")
-	}
-	m1 := load("mercury/v1", false)
-	for _, fn := range []string{"GetConsensusLatestBlock", "GetConsensusMaxFinalizedBlockNum"} {
-		addStrs("mercury_v1_"+fn+"_cmps", m1.comparisons(m1.funcDecl("", fn)), "mercury/v1/aggregate_functions.go "+fn, "C08")
-	}
-	m4 := load("mercury/v4", false)
-	addStrs("mercury_v4_GetConsensusMarketStatus_cmps", m4.comparisons(m4.funcDecl("", "GetConsensusMarketStatus")), "mercury/v4/aggregate_functions.go", "C08")
-	for _, v := range []string{"v1", "v2", "v3", "v4"} {
-		mp := m1
-		if v != "v1" {
-			mp = load("mercury/"+v, false)
-		}
-		addStrs("mercury_"+v+"_Report_cmps", mp.comparisons(mp.funcDecl("reportingPlugin", "Report")), "mercury/"+v+"/mercury.go Report", "C07", "C09")
-		addStrs("mercury_"+v+"_buildReportFields_cmps", mp.comparisons(mp.funcDecl("reportingPlugin", "buildReportFields"), "MaxUint32"), "mercury/"+v+"/mercury.go buildReportFields", "C07", "C09")
-	}
-
-	// ---- mtls lock discipline
-	mt := load("rpc/mtls", false)
-	for _, fn := range []string{"Replace", "Keys", "isValidPublicKey", "VerifyPeerCertificate"} {
-		addStrs("mtls_"+fn+"_trace", mt.lockTrace(mt.funcDecl("PublicKeys", fn)), "rpc/mtls/mtls.go "+fn, "C20")
-	}
+	sort.SliceStable(facts, func(i, j int) bool { return facts[i].Name < facts[j].Name })
 
 	// ---- emit
 	var b strings.Builder
